@@ -165,7 +165,10 @@ def parse_vc(path, into=None, features=()):
                 cur = TypeOpts(parts[1], parts[2], parts[3:], origin)
                 vc.types[(parts[1], parts[2])] = cur
             elif kind == 'skip':
-                vc.skips[(parts[1], parts[2])] = ' '.join(parts[3:])
+                # the name may contain spaces (`<T as Trait<X>>`); a comment may follow after two blanks + `(`
+                rest = line[2:].strip()[len('skip'):].strip()[len(parts[1]):].strip()
+                nm, _, why = rest.partition('  (')
+                vc.skips[(parts[1], nm.strip())] = why.rstrip(')')
                 cur = None
             elif kind == 'raw':
                 cur = ('raw', parts[1], origin)
